@@ -119,6 +119,41 @@ type c11Fix struct {
 	// from there would wait for that connection forever, so no hook is offered at that point.)
 	hookMu       sync.Mutex
 	onResolveKey func()
+
+	// fault plan for the issuer node's Sign callback (called by Revoke, by Credential() when it renews and by Entry()
+	// when it opens a page, each time inside the transaction): the next faultSkip calls pass, the faultCount calls after
+	// that fail. The harness' own signing (aged lists, forged-entry credentials) uses realSign and is never failed.
+	realSign   revocation.SignFn
+	faultSkip  int
+	faultCount int
+	faultFires int
+}
+
+func (f *c11Fix) setFault(skip, count int) {
+	f.hookMu.Lock()
+	f.faultSkip, f.faultCount = skip, count
+	f.hookMu.Unlock()
+}
+
+func (f *c11Fix) fires() int {
+	f.hookMu.Lock()
+	defer f.hookMu.Unlock()
+	return f.faultFires
+}
+
+func (f *c11Fix) signFault() bool {
+	f.hookMu.Lock()
+	defer f.hookMu.Unlock()
+	if f.faultCount <= 0 {
+		return false
+	}
+	if f.faultSkip > 0 {
+		f.faultSkip--
+		return false
+	}
+	f.faultCount--
+	f.faultFires++
+	return true
 }
 
 func (f *c11Fix) armHook(fn func()) {
@@ -203,6 +238,13 @@ func c11Fixture(t *testing.T) *c11Fix {
 		f.slA = revocation.NewStatusList2021(f.dbA, &c11Net{}, c11BaseURL) // the issuer node never needs to download
 		f.iss = issuer.NewIssuer(issStore, nil, nil, nil, f.res, f.keys, ld, trustA, f.slA)
 		f.verA = verifier.NewVerifier(verStoreA, f.res, keyRes, ld, trustA, f.slA)
+		f.realSign = f.slA.Sign // installed by issuer.NewIssuer
+		f.slA.Sign = func(ctx context.Context, unsigned vc.VerifiableCredential, kid string) (*vc.VerifiableCredential, error) {
+			if f.signFault() {
+				return nil, errors.New("c11: injected signer failure")
+			}
+			return f.realSign(ctx, unsigned, kid)
+		}
 		realResolveKey := f.slA.ResolveKey // installed by issuer.NewIssuer
 		f.slA.ResolveKey = func(id did.DID, at *time.Time, rel resolver.RelationType) (string, crypt.PublicKey, error) {
 			if fn := f.takeHook(); fn != nil {
@@ -245,6 +287,7 @@ func (f *c11Fix) reset() error {
 	f.net.reqs, f.net.handler = nil, nil
 	f.net.mu.Unlock()
 	f.armHook(nil)
+	f.setFault(0, 0)
 	return nil
 }
 
@@ -401,7 +444,7 @@ func (f *c11Fix) signList(k int, url, purpose string, bits []byte, issued, expir
 			ID: url, Type: revocation.StatusList2021CredentialSubjectType, StatusPurpose: purpose, EncodedList: c11EncodeList(bits),
 		}},
 	}
-	return f.slA.Sign(f.ctx, tmpl, f.kids[k])
+	return f.realSign(f.ctx, tmpl, f.kids[k])
 }
 
 // signVC lets issuer k sign an arbitrary credential (a credential whose status entry the harness chose).
@@ -416,5 +459,5 @@ func (f *c11Fix) signVC(k int, entry revocation.StatusList2021Entry, serial int)
 		CredentialSubject: []any{map[string]any{"id": "did:web:holder.example"}},
 		CredentialStatus:  []any{entry},
 	}
-	return f.slA.Sign(f.ctx, tmpl, f.kids[k])
+	return f.realSign(f.ctx, tmpl, f.kids[k])
 }
